@@ -71,8 +71,7 @@ Qed.
 (* ---------------------------------------------------------------- the monitor, unfolded *)
 Definition waits_next (tid : nat) (e : ev) (rest_before : bool) (ws : list (nat * nat))
   : list (nat * nat) :=
-  let waits0 := map (fun p => if Nat.eqb (fst p) tid && rest_before
-                              then (fst p, S (snd p)) else (fst p, O)) ws in
+  let waits0 := map (wait_tick tid rest_before) ws in
   match e with
   | ECall CWait => (tid, O) :: waits0
   | ERet CWait _ => filter (fun p => negb (Nat.eqb (fst p) tid)) waits0
@@ -144,21 +143,23 @@ Proof.
             snd p = O /\ exists todo, nth_error (thr cf') (fst p) = Some (Run CWait W0 todo)).
   { intros p Hp. rewrite (q_waits_step _ _ _ Htr) in Hp. cbn [it_tid it_ev] in Hp.
     unfold waits_next in Hp.
-    set (f := fun p0 : nat * nat =>
-                if Nat.eqb (fst p0) tid && is_nil (adds_in_flight (tr cf))
-                then (fst p0, S (snd p0)) else (fst p0, O)) in *.
+    set (f := wait_tick tid (is_nil (adds_in_flight (tr cf)))) in *.
     assert (Hmapped : forall q, In q (map f (q_waits (mon2_of (tr cf)))) ->
               (fst q <> tid -> snd q = O /\
                  exists todo, nth_error (thr cf') (fst q) = Some (Run CWait W0 todo)) /\
               (fst q = tid -> ev_is_wait_ret e)).
     { intros q Hq. apply in_map_iff in Hq. destruct Hq as (q0 & <- & Hq0).
       destruct (j_waits _ HJ _ Hq0) as (Hz & td & Hth).
-      unfold f. destruct (Nat.eqb_spec (fst q0) tid) as [E|N]; cbn [andb].
-      - split; [intro C; exfalso; apply C;
-                  destruct (is_nil (adds_in_flight (tr cf))); cbn; auto|].
+      assert (Ef : fst (f q0) = fst q0).
+      { unfold f, wait_tick. destruct (is_nil (adds_in_flight (tr cf))); [|reflexivity].
+        destruct (Nat.eqb (fst q0) tid); reflexivity. }
+      rewrite Ef. destruct (Nat.eq_dec (fst q0) tid) as [E|N].
+      - split; [intro C; contradiction|].
         intros _. apply Hret. exists td. rewrite <- E. exact Hth.
-      - cbn. split; [|intro C; contradiction]. intros _. split; auto.
-        exists td. rewrite Hother; auto. }
+      - split; [|intro C; contradiction]. intros _. split.
+        + unfold f, wait_tick. destruct (is_nil (adds_in_flight (tr cf))); [|reflexivity].
+          destruct (Nat.eqb_spec (fst q0) tid); [contradiction|exact Hz].
+        + exists td. rewrite Hother; auto. }
     destruct e as [c|c r| |].
     - destruct c.
       + destruct (Hmapped _ Hp) as [H1 H2];
